@@ -7,8 +7,9 @@
          -> A <id> err | sing | <kkt 0|1> <nonbasic_ok 0|1> <pfeas&dfeas verdict 0|1> <objval> | z.. | y..
      Q <id> tab             ; ILP block ; ORD h_0 .. h_{m-1} ; then m times:  BINV <i> r.. ; TROW <i> t..
          -> A <id> <S|N> <per row: b t> ...      (S: the basis matrix is singular according to the model)
-     Q <id> mat <n> <k>     ; n lines R v.. (dense rows) ; k lines  FT a.. | x..   or  BT c.. | y..
-         -> A <id> <S|N> <0|1 per check>
+     Q <id> mat <n> <k> [I|Y|-] ; n lines R v.. (dense rows) ; [Y y..] ; k lines  FT a.. | x..   or  BT c.. | y..
+         -> A <id> <S|N|X|?> <0|1 per check>     (I: singularity by the verified elimination; Y: y is checked to be a
+            non-zero left null vector: S, else X; -: not decided)
    Everything that decides anything is extracted Coq code. *)
 open Model
 open Glue
@@ -94,11 +95,20 @@ let () =
               | _ -> failwith "BINV/TROW")
            done;
            Printf.printf "A %s %s%s\n" id (if sing then "S" else "N") (Buffer.contents buf)
-         | "mat", [ n; k ] ->
+         | "mat", (n :: k :: rest) ->
+           (* mode: I (default) decide singularity by the verified elimination; Y: a line "Y y.." follows the rows, a claimed
+              non-zero left null vector, answer S if it is one, X otherwise; - : no decision (answer ?) *)
+           let mode = (match rest with [ m ] -> m | _ -> "I") in
            let n = int_of_string n and k = int_of_string k in
            let rows = List.init n (fun _ -> qlist (expect ic "R")) in
            let nn = nat_of_int n in
-           let sing = (inverse nn rows = None) in
+           let verdict =
+             if mode = "I" then (if inverse nn rows = None then "S" else "N")
+             else if mode = "Y" then begin
+               let y = qlist (expect ic "Y") in
+               let zero = List.init n (fun _ -> q_of_string "0") in
+               if List.length y = n && check_btran nn rows y zero && not (veqb nn y zero) then "S" else "X"
+             end else "?" in
            let buf = Buffer.create 64 in
            for _ = 1 to k do
              match next_tokens ic with
@@ -108,7 +118,7 @@ let () =
                Buffer.add_string buf (" " ^ bit (List.length y = n && check_btran nn rows (qlist y) (qlist c)))
              | _ -> failwith "FT/BT expected"
            done;
-           Printf.printf "A %s %s%s\n" id (if sing then "S" else "N") (Buffer.contents buf)
+           Printf.printf "A %s %s%s\n" id verdict (Buffer.contents buf)
          | _ -> Printf.printf "A %s UNKNOWN-QUERY\n" id)
       with Failure m -> Printf.printf "A %s PARSE-ERROR %s\n" id m);
       flush stdout; loop ()
